@@ -170,9 +170,11 @@ func checkC16(p *load.Program, r *kit.Report) {
 				if ld != nil && !li.Holds(ld, lock, true) {
 					bad = "isCancelled is tested without stateLock"
 				}
-				rr := kit.Reach(f, []kit.Pt{kit.At(g.If)}, kit.Opts{StopAt: kit.InstrSet(setStore)})
+				// from the not-yet-cancelled edge to the store (the already-cancelled edge has
+				// nothing left to record)
+				rr := kit.Reach(f, []kit.Pt{kit.EdgeStart(g.FailEdge())}, kit.Opts{StopAt: kit.InstrSet(setStore)})
 				for _, x := range rel {
-					if rr.Has(x) {
+					if rr.Has(x) && kit.Reach(f, kit.After(x), kit.Opts{}).Has(setStore) {
 						bad = "stateLock is released between the test of isCancelled and isCancelled = true: Cancel and Stop can both decide to signal"
 					}
 				}
@@ -182,7 +184,8 @@ func checkC16(p *load.Program, r *kit.Report) {
 			}
 			// set on every path that passed the not-complete test before unlocking
 			for _, e := range edgesOf(done, false) {
-				rr := kit.Reach(f, []kit.Pt{kit.EdgeStart(e)}, kit.Opts{StopAt: kit.InstrSet(setStore)})
+				// (a path on which isCancelled was already true needs no store)
+				rr := kit.Reach(f, []kit.Pt{kit.EdgeStart(e)}, kit.Opts{StopAt: kit.InstrSet(setStore), BlockEdge: kit.EdgeSet(edgesOf(cg, true)...)})
 				for _, x := range rel {
 					if rr.Has(x) {
 						bad = "the lock can be released without recording the cancellation"
